@@ -107,7 +107,16 @@ class StmtMixin:
         out.nalloc = max(s.nalloc for s in sts)
         if values is not None:
             tys = {v.ty for v in values}
-            return out, V(ite([v.t for v in values]), values[0].ty if len(tys) == 1 else None)
+            bts = {base_type(t) for t in tys}
+            if len(tys) == 1:
+                ty = values[0].ty
+            elif len(bts) == 1 and None not in bts:
+                b_ = bts.pop()
+                full = [t for t in tys if not t.startswith("opt:")]
+                ty = ("opt:" + (full[0] if full else b_)) if any(t.startswith("opt:") for t in tys) else full[0]
+            else:
+                ty = None
+            return out, V(ite([v.t for v in values]), ty)
         return out
 
     def ex(self, st, s):
@@ -603,7 +612,7 @@ class StmtMixin:
                                     patterns=[z3.Select(new, o)]))
         for nm in names:
             if nm in pre_names and isinstance(pre_names[nm], V):
-                st.env[nm] = V(fresh_val(nm), pre_names[nm].ty)
+                st.env[nm] = self.typed(st, V(fresh_val(nm), pre_names[nm].ty))     # a local keeps its static type across iterations
             else:
                 st.env.pop(nm, None)
 
@@ -752,6 +761,7 @@ class StmtMixin:
             sh.assume(f)
         breaks = []
         ntrace = len(sh.trace)
+        iter_start = sh.copy()
         for b in body(sh):
             if b.kind in ("normal", "continue"):
                 for e, f in inv_terms(b.st, i + 1):
@@ -761,6 +771,7 @@ class StmtMixin:
                     if clause_active(e, self.prop):
                         view = b.st.copy(); view.trace = b.st.trace[ntrace:]     # effects of this iteration only
                         binds = {k: v for k, v in b.st.env.items() if isinstance(v, V)}
+                        self._iter_start = iter_start
                         self.oblige(f"loop-body[{key}]: {clause_text(e)}", "inv-pres", self.spec(view, st0, clause_text(e), binds), b.st, s.lineno)
             elif b.kind == "break" and lc.get("no_break"):
                 self.oblige(f"loop-body[{key}]: no iteration is skipped by break", "inv-pres", z3.BoolVal(False), b.st, s.lineno)
